@@ -883,6 +883,20 @@ func judgeEvo(c evoCase, excludeKnown bool) outcome {
 	harness := func(err error) outcome { return outcome{status: "harness", err: err} }
 	isHarness := func(err error) bool { return strings.HasPrefix(err.Error(), "harness:") }
 
+	// precondition: every declared default of both programs is a value a strict reader accepts
+	// in the form the generated code writes it.  A default literal that leaves out a required
+	// struct field is a nil pointer in the object, written as an empty struct that lacks the
+	// inner required fields: such an IDL cannot exchange its own defaults, whatever the version.
+	for _, sc := range []*ref.Schema{schNew, schOld} {
+		for _, st := range sc.Structs {
+			for _, f := range st.Fields {
+				if f.HasDef && f.Default != nil && !ref.Readable(f.Type, ref.WireForm(f.Type, f.Default, 0)) {
+					return outcome{status: "unreadable_default"}
+				}
+			}
+		}
+	}
+
 	// step 0: data written by the code of the newer version.  The value that
 	// travels is the one these bytes denote under the new schema (strict
 	// reference decoder): the generated constructor may have completed the drawn
